@@ -66,6 +66,8 @@ Proof.
     destruct (slice_of h v) as [[[[base off] len] cap]|]; cbn; [|reflexivity].
     rewrite H0, H1, H2. unfold bind. dm.
   - rewrite <- H, <- H0. unfold bind. dm.
+  - rewrite <- H. unfold bind. dm.
+  - rewrite <- H. unfold bind. dm.
   - reflexivity.
   - rewrite <- H, <- H0. unfold bind. dm.
   - reflexivity.
@@ -90,11 +92,19 @@ Qed.
 Lemma y_store_resolve h d v : y_store h d v = (t <- resolve h d ;; store h t v).
 Proof. destruct d; cbn; unfold bind; dm. Qed.
 
-Definition is_sval (s : slot) : Prop := match s with SVal _ => True | SRef _ => False end.
+Fixpoint is_sval (s : slot) : Prop :=
+  match s with SVal _ => True | SRef _ => False | SBox _ s' => is_sval s' end.
 
-Lemma y_rv_sval h e x s : is_load x = false -> y_rv h e x = Some s -> is_sval s.
+Lemma slot_get_sval s : is_sval s -> forall h h', slot_get h s = slot_get h' s.
 Proof.
-  destruct x; cbn; unfold bind; intros Hl H; try discriminate; dmh; inversion H; subst; exact I.
+  induction s; cbn; intros Hs h h'; [reflexivity|destruct Hs|]. rewrite (IHs Hs h h'). reflexivity.
+Qed.
+
+Lemma y_rv_sval h e x : forall s, is_load x = false -> y_rv h e x = Some s -> is_sval s.
+Proof.
+  induction x; cbn; unfold bind; intros s0 Hl H; try discriminate;
+    try (dmh; inversion H; subst; exact I).
+  destruct (y_rv h e x) as [s1|] eqn:E1; [|discriminate]. inversion H; subst. cbn. eapply IHx; eauto.
 Qed.
 
 Lemma y_rvs_svals h e xs : forall ss, no_loads xs = true -> y_rvs h e xs = Some ss -> Forall is_sval ss.
@@ -110,7 +120,7 @@ Qed.
 Lemma slots_get_sval ss : Forall is_sval ss -> forall h h', slots_get h ss = slots_get h' ss.
 Proof.
   induction 1 as [|s r Hs _ IH]; intros h h'; cbn; [reflexivity|].
-  destruct s; [|destruct Hs]. cbn. rewrite (IH h h'). reflexivity.
+  rewrite (slot_get_sval s Hs h h'), (IH h h'). reflexivity.
 Qed.
 
 Lemma slots_get_length h ss : forall vs, slots_get h ss = Some vs -> length vs = length ss.
@@ -131,7 +141,8 @@ Proof.
   assert (G : forall h1 h2 off', y_append_inplace h1 base off' r =
                                  match slots_get h2 r with Some vs => write_elems h1 base off' vs | None => None end).
   { clear h s v. induction Hr as [|s r Hs _ IH]; intros h1 h2 off'; cbn; [reflexivity|].
-    destruct s; [|destruct Hs]. cbn. unfold bind.
+    unfold bind. rewrite (slot_get_sval s Hs h1 h2).
+    destruct (slot_get h2 s) as [v|]; [|reflexivity].
     destruct (slots_get h2 r) as [vs|] eqn:Evs; cbn; unfold bind.
     - destruct (write h1 (sub base off') v) as [h1'|]; [|reflexivity].
       rewrite (IH h1' h2), Evs. reflexivity.
@@ -560,7 +571,7 @@ Definition vAI := LVar 7. Definition vSI := LVar 8. Definition vI := LVar 9. Def
 Definition a_ (i : Z) := LIdx vA (RInt i).
 Fixpoint rlist (l : list rv) : rvs := match l with [] => RNone | x :: r => RCons x (rlist r) end.
 Fixpoint olist (l : list op) : ops := match l with [] => ONil | x :: r => OCons x (olist r) end.
-Definition lit_S (n : Z) : rv := RStruct (rlist [RInt n; RArr (rlist [RInt 0; RInt 0]); RNil; RNil; RNil]).
+Definition lit_S (n : Z) : rv := RStruct (rlist [RInt n; RArr (rlist [RInt 0; RInt 0]); RNil; RNil; RNil; RNil]).
 
 Definition fvS_body : ops :=
   olist [OAssign (LFld (LVar 100) 0) (EPure (RAdd (RLoad (LFld (LVar 100) 0)) (RInt 100)));
@@ -568,7 +579,7 @@ Definition fvS_body : ops :=
 
 (** a[1].N = 3; ai = [4]int{1,2,3,4}; si = ai[1:3]; si[0] = 9; si = append(si, 7); t := a;
     a[0], a[1] = a[1], a[0]; for _, v := range a { a[2].N = v.N + 1 }; s = fvS(a[0]);
-    p = &a[1]; p.N = 50; dump *)
+    p = &a[1]; p.N = 50; ea[0] = s; ea[1] = &s; s.N = 1; dump *)
 Definition w_ok : ops := olist
   [ OAssign (LFld (a_ 1) 0) (EPure (RInt 3));
     OAssign vAI (EPure (RArr (rlist [RInt 1; RInt 2; RInt 3; RInt 4])));
@@ -582,13 +593,17 @@ Definition w_ok : ops := olist
     OCall (Some vS) [100] (rlist [RLoad (a_ 0)]) fvS_body (OSome (RLoad (LVar 100)));
     OAssign vP (EPure (RAddr (a_ 1)));
     OAssign (LFld (LDeref (RLoad vP)) 0) (EPure (RInt 50));
+    OAssign (LIdx (LVar 12) (RInt 0)) (EPure (RBox 2 (RLoad vS)));    (* ea[0] = s : the struct is copied into the box *)
+    OAssign (LIdx (LVar 12) (RInt 1)) (EPure (RBox 3 (RAddr vS)));    (* ea[1] = &s *)
+    OAssign (LFld vS 0) (EPure (RInt 1));                             (* s.N = 1 *)
     ODump ].
 
-(** the pool after w_ok: a = {3..} {50..} {1..}; s = {103 [77 0] ..}; p == &a[1]; ai = [1 9 3 7];
-    si = ai[1:4] *)
+(** the pool after w_ok: a = {3..} {50..} {1..}; s = {1 [77 0] ..}; p == &a[1]; ai = [1 9 3 7];
+    si = ai[1:4]; ea[0] holds the copy S{103 [77 0]} made before s.N = 1, ea[1] holds &s *)
 Definition w_ok_dump : list Z :=
-  [3; 0; 0; 0; 0; 1; 0;  50; 0; 0; 0; 0; 1; 0;  1; 0; 0; 0; 0; 1; 0;  103; 77; 0; 0; 0; 1; 0;
-   0; 0;  0; 0;  1;  2; 50; 0; 0;  0;  1; 9; 3; 7;  3; 3; 9; 3; 7;  0; 0; 0]%Z.
+  [3; 0; 0; 0; 0; 1; 0; 0;  50; 0; 0; 0; 0; 1; 0; 0;  1; 0; 0; 0; 0; 1; 0; 0;  1; 77; 0; 0; 0; 1; 0; 0;
+   0; 0;  0; 0;  1;  2; 50; 0; 0;  0;  1; 9; 3; 7;  3; 3; 9; 3; 7;  0; 0; 0;
+   3; 103; 77; 0;  4; 4; 1; 77; 0;  0;  0; 0;  1;  0]%Z.
 
 Lemma wf_inhabited :
   wf_ops w_ok = true /\ fst (g_ops grow0 init_st w_ok) = [w_ok_dump] /\ fst (y_ops grow0 init_st w_ok) = [w_ok_dump].
